@@ -1,0 +1,61 @@
+//go:build verif
+
+package concurrent
+
+import "sync/atomic"
+
+// Schedule-perturbation hooks used by the external verification harness only
+// (build tag verif). With the tag off every function below is an empty function.
+
+// VerifScheduleHooks is installed by the harness to explore many schedules
+// of Foreach deterministically from a seed.
+type VerifScheduleHooks struct {
+	// Permute returns the start order of the n elements of one Foreach call
+	// (a permutation of 0..n-1) or nil to keep the source order.
+	Permute func(n int) []int
+	// Enter is called in the goroutine of an element before its function runs,
+	// Exit after it returned.
+	Enter func()
+	Exit  func()
+	// Point is called at named places inside concurrently running code
+	// (before shared state is touched); it may yield or sleep.
+	Point func(name string)
+}
+
+// VerifHooks holds the installed hooks (nil = none).
+var VerifHooks atomic.Pointer[VerifScheduleHooks]
+
+func verifPermute[E any](collection []E) []E {
+	h := VerifHooks.Load()
+	if h == nil || h.Permute == nil {
+		return collection
+	}
+	order := h.Permute(len(collection))
+	if len(order) != len(collection) {
+		return collection
+	}
+	result := make([]E, len(collection))
+	for i, j := range order {
+		result[i] = collection[j]
+	}
+	return result
+}
+
+func verifEnter() {
+	if h := VerifHooks.Load(); h != nil && h.Enter != nil {
+		h.Enter()
+	}
+}
+
+func verifExit() {
+	if h := VerifHooks.Load(); h != nil && h.Exit != nil {
+		h.Exit()
+	}
+}
+
+// VerifPoint marks a place where the harness may perturb the schedule.
+func VerifPoint(name string) {
+	if h := VerifHooks.Load(); h != nil && h.Point != nil {
+		h.Point(name)
+	}
+}
